@@ -160,6 +160,8 @@ Definition mul_assemble (neg : bool) (l : list mitem) : list token :=
   | _ :: _ :: _ => [TSlash; TLp] ++ join [TStar] b_str ++ [TRp]
   end.
 
+Definition is_unit_frac (e : sexpr) : bool := match e with SRat p q => (p =? 1) && negb (q =? 1) | _ => false end.
+Definition unit_frac_den (e : sexpr) : Z := match e with SRat _ q => q | _ => 1 end.
 Definition is_mul_or_pow (e : sexpr) : bool :=
   match e with SMul _ _ | SPow _ _ => true | _ => false end.
 Definition nargs (e : sexpr) : nat :=
@@ -167,29 +169,39 @@ Definition nargs (e : sexpr) : nat :=
   | SAdd ts => List.length ts | SMul _ fs => List.length fs | SPow _ _ => 2%nat | SFun _ a => List.length a | _ => 0%nat
   end.
 
+(* classification of one ordered factor (the loop "for item in args" of _print_Mul);
+   P is the printer for sub-expressions: P flip e *)
+Definition item_of (P : bool -> sexpr -> list token) (f : sexpr) : mitem :=
+  match f with
+  | SPow b ex =>
+      if negexp ex then
+        match eshape_of false ex with
+        | ENegOne => MDen (P false b, prec b) (negb (Nat.eqb (nargs b) 1) && is_mul_or_pow b)
+        | _ =>
+            if is_unit_frac b then
+              (* apow uses as_base_exp: a base 1/q becomes q with the exponent negated, and apow negates it
+                 back: Pow(q, ex) is printed in the denominator (value (1/q)**ex all the same) *)
+              MDen (pow_assemble (eshape_of false ex) (num_tokens (unit_frac_den b), prec (SInt (unit_frac_den b)))
+                                 (P false ex, prec ex), P_POW) false
+            else
+              MDen (pow_assemble (eshape_of true ex) (P false b, prec b) (P true ex, precf true ex), P_POW) false
+        end
+      else MNum (pow_assemble (eshape_of false ex) (P false b, prec b) (P false ex, prec ex), P_POW)
+  | SInt z => MRat z 1
+  | SRat p q => MRat p q
+  | _ => MNum (P false f, prec f)
+  end.
+
+Definition is_add (t : sexpr) : bool := match t with SAdd _ => true | _ => false end.
+
 (* pr sp flip e : tokens of  e  (flip = false)  or of the negated exponent  -e  (flip = true,
    only meaningful when negexp e).  sp = true gives the printer's exact spacing. *)
 Fixpoint pr (sp flip : bool) (e : sexpr) {struct e} : list token :=
   match e with
-  | SAdd ts => add_join sp (map (fun t => (pr sp false t, match t with SAdd _ => true | _ => false end)) ts)
+  | SAdd ts => add_join sp (map (fun t => (pr sp false t, is_add t)) ts)
   | SMul neg fs =>
-      let item := fun f : sexpr =>
-        match f with
-        | SPow b ex =>
-            if negexp ex then
-              match eshape_of false ex with
-              | ENegOne => MDen (pr sp false b, prec b)
-                                (negb (Nat.eqb (nargs b) 1) && is_mul_or_pow b)
-              | _ => MDen (pow_assemble (eshape_of true ex) (pr sp false b, prec b) (pr sp true ex, precf true ex),
-                           P_POW) false
-              end
-            else MNum (pow_assemble (eshape_of false ex) (pr sp false b, prec b) (pr sp false ex, prec ex), P_POW)
-        | SInt z => MRat z 1
-        | SRat p q => MRat p q
-        | _ => MNum (pr sp false f, prec f)
-        end in
       if flip && is_single fs then match fs with [f] => pr sp false f | _ => [] end
-      else mul_assemble (xorb flip neg) (map item fs)
+      else mul_assemble (xorb flip neg) (map (item_of (fun fl x => pr sp fl x)) fs)
   | SPow b ex => pow_assemble (eshape_of false ex) (pr sp false b, prec b) (pr sp false ex, prec ex)
   | SInt z => num_tokens (if flip then - z else z)
   | SRat p q => num_tokens (if flip then - p else p) ++ [TSlash] ++ num_tokens q
